@@ -157,6 +157,12 @@ impl Config {
         self.buffered_threshold = threshold;
     }
 
+    #[cfg(rust_cc_verif)]
+    #[inline]
+    pub(crate) fn verif_bytes_threshold(&self) -> usize {
+        self.bytes_threshold
+    }
+
     #[inline(always)]
     pub(super) fn should_collect(&mut self, state: &State, possible_cycles: &PossibleCycles) -> bool {
         if !self.auto_collect {
